@@ -232,7 +232,18 @@ func runC05Case(c *Ctx, idx int) *CaseResult {
 	st := GenState(c.Rng(idx, 1))
 	g := &Gen{R: r, Pool: catalog, Calls: true, Strs: true, Times: true, ShortCircuit: CopyState(st)}
 	var e *Expr
-	for tries := 0; tries < 40; tries++ {
+	if t := idx - len(docLiterals); t < 2*len(c05FuncCases) {
+		// the function table, once with literal receivers and once through a fact field
+		e = c05FuncCases[t%len(c05FuncCases)]
+		if t >= len(c05FuncCases) {
+			e = c05RecvViaField(e, st)
+		}
+		if _, err := refStrict.Eval(e, CopyState(st)); err != nil {
+			return cr // outside the domain (NaN, infinite) or not expressible
+		}
+		cr.inc("function_table_cases")
+	}
+	for tries := 0; tries < 40 && e == nil; tries++ {
 		ty := []Ty{TInt, TInt, TUint, TFloat, TFloat, TStr, TBool, TBool, TBool, TTime}[r.Intn(10)]
 		cand := g.Expr(ty, 1+r.Intn(depth))
 		if _, err := refStrict.Eval(cand, CopyState(st)); err != nil {
@@ -586,9 +597,9 @@ func c05Known(c *Ctx) {
 func init() {
 	register(&Check{
 		ID: "C05", Level: "exploration",
-		Rule: "typed random expression trees over all 15 operators x operand kinds (every int/uint width, float32/64, string, bool, time, values behind pointers, JSON members, top-level variables), built-ins and fixed/variadic fact methods, depth <=4 (quick) / <=6 (thorough), states free of overflow, division by zero and NaN (checked with big integers); each tree in 4 spellings (plain; tight spacing + comments; keyword case + literal notation; all together + !(atom)); one expression per knowledge base stored into a nil interface field (dynamic kind visible) and, when boolean, also used as a condition; the documented literal tables replayed verbatim with values computed by math/big; non-trivial = distinct (expression, state) with depth >=3 and >=2 operator classes, or an escaped string literal, or a literal-table entry",
+		Rule: "typed random expression trees over all 15 operators x operand kinds (every int/uint width, float32/64, string, bool, time, values behind pointers, JSON members, top-level variables), built-ins and fixed/variadic fact methods, depth <=4 (quick) / <=6 (thorough), states free of overflow, division by zero and NaN (checked with big integers); each tree in 4 spellings (plain; tight spacing + comments; keyword case + literal notation; all together + !(atom)); one expression per knowledge base stored into a nil interface field (dynamic kind visible) and, when boolean, also used as a condition; the documented literal tables replayed verbatim with values computed by math/big; a deterministic function table (every math wrapper, Max/Min tuples of either sign with the extreme at every position, every string function over receivers with all kinds of edge whitespace, once on a literal and once on a fact field); non-trivial = distinct (expression, state) with depth >=3 and >=2 operator classes, or an escaped string literal, or a literal-table entry",
 		Assume: []string{"string + real rendering is unspecified (left out)", "reference interpreter groups by the published precedence table", "K1 signature: the engine's result equals the reference value of the tree regrouped with & at the additive level"},
-		Cases:  tierN(4000+len(docLiterals), 250000),
+		Cases:  func(t string) int { return tierN(4000, 250000)(t) + len(docLiterals) + 2*len(c05FuncCases) },
 		Run:    runC05Case,
 		Known:  c05Known,
 	})
